@@ -22,6 +22,8 @@ type Env struct {
 	local func(name string) *Value
 	// seen: the "already visited" ghost set of the map-range loop an invariant is attached to (component name, key sort)
 	seenComp, seenSort string
+	// defined(x): the definition of loop-body local x was executed in this iteration (back-edge assertions only)
+	defined func(name string) string
 }
 
 func (env *Env) e() *Encoder { return env.f.e }
@@ -706,6 +708,11 @@ func (env *Env) call(n *Node) *Value {
 			env.fail("seen(k) is only meaningful in an invariant of a loop that ranges over a map")
 		}
 		return term(sel(e.comp(env.st, env.seenComp, arrSortK(env.seenSort, sBool)), arg(0).T), sBool, boolT)
+	case "defined":
+		if env.defined == nil || len(n.Kids) != 1 || n.Kids[0].Op != "name" {
+			env.fail("defined(x) takes one local variable name and is only meaningful in a 'loop N backedge' clause")
+		}
+		return term(env.defined(n.Kids[0].Name), sBool, boolT)
 	case "i2f":
 		return term(app("i2f", arg(0).T), sF64, types.Typ[types.Float64])
 	case "unixnano":
@@ -958,6 +965,9 @@ func (e *Encoder) fieldCompSort(name string, from *types.Package) string {
 	}
 	if len(parts) != 4 || parts[0] != "H" {
 		return ""
+	}
+	if g := e.ct.Ghost[parts[1]+"."+parts[2]+"."+parts[3]]; g != nil {
+		return arrSort(g.Sort)
 	}
 	t := e.lookupType(parts[1]+"."+parts[2], from)
 	if t == nil {
